@@ -159,6 +159,7 @@ func (g *gen) serveTables() {
 			g.p("].\n")
 		}
 		g.serveConditions(f, consts)
+		g.serveEOFForm(f)
 	}
 	if f := g.parse("internal/stream/reader.go"); f != nil {
 		g.wsCloseFacts(f)
@@ -389,4 +390,51 @@ func (g *gen) serveConditions(f *ast.File, consts map[string]string) {
 	g.p("Definition sv_lookup_uses : nat := %d. (* mentions of sentStanzas in handleInputStream *)\n", uses)
 	g.p("(* handleInputStream: iqNeedsResp := <cond> *)\n")
 	emit("sv_needs_resp", needs, "the assignment to iqNeedsResp")
+}
+
+// serveEOFForm reads how Session.Serve tells the peer's close from other
+// results of handleInputStream: a `switch err` whose only clause besides nil
+// and default compares with io.EOF by identity. (errors.Is, or a tagless
+// switch, would let any error that wraps io.EOF end Serve with nil.)
+func (g *gen) serveEOFForm(f *ast.File) {
+	var fd *ast.FuncDecl
+	for _, d := range f.Decls {
+		if x, is := d.(*ast.FuncDecl); is && x.Name.Name == "Serve" && x.Recv != nil {
+			fd = x
+		}
+	}
+	identity, clauses, switches := false, 0, 0
+	if fd != nil {
+		ast.Inspect(fd, func(n ast.Node) bool {
+			sw, is := n.(*ast.SwitchStmt)
+			if !is {
+				return true
+			}
+			switches++
+			tag, isIdent := sw.Tag.(*ast.Ident)
+			if !isIdent || tag.Name != "err" {
+				return true
+			}
+			eofOnly := false
+			for _, st := range sw.Body.List {
+				cc := st.(*ast.CaseClause)
+				clauses++
+				for _, e := range cc.List {
+					if sel, is := e.(*ast.SelectorExpr); is && sel.Sel.Name == "EOF" {
+						if pk, is := sel.X.(*ast.Ident); is && pk.Name == "io" && len(cc.List) == 1 {
+							eofOnly = true
+						}
+					}
+				}
+			}
+			identity = eofOnly
+			return true
+		})
+	}
+	if fd == nil {
+		g.errs = append(g.errs, "session.go: Session.Serve not found")
+	}
+	g.p("(* Session.Serve: `switch err { case nil: ...; case io.EOF: return nil; default: return s.sendError(err) }` *)\n")
+	g.p("Definition sv_serve_eof_identity : bool := %v. (* the peer's close is recognised by err == io.EOF *)\n", identity)
+	g.p("Definition sv_serve_switches : nat := %d.\nDefinition sv_serve_clauses : nat := %d.\n", switches, clauses)
 }
